@@ -210,6 +210,28 @@ class Firmware:
                 not self.gates[gate].is_set()
 
 
+def wait_handshake_drained(fw, m110_before=0, timeout=5.0):
+    """After connect(): wait until the connect handshake is over AND its replies
+    have been read.  The sender probes with G4 P0, starts an empty print (M110
+    N-1) and resets the numbering once more when that print ends, about 0.1 s
+    later; a first write() issued while one of those replies is unread runs
+    into the recorded finding handshake-oks-shift-acks.  Devices that greet
+    with 'Grbl' get no M110 at all."""
+    t0, quiet = time.time(), None
+    grbl = isinstance(fw.greeting, str) and fw.greeting.startswith("Grbl")
+    while time.time() - t0 < timeout:
+        with fw.lock:
+            seen = sum(1 for l in fw.rx if "M110" in l) - m110_before
+            idle = len(fw.out) == 0
+        if idle and (grbl or seen >= 2 or time.time() - t0 > 1.0):
+            quiet = quiet or time.time()
+            if time.time() - quiet > 0.06:
+                return
+        else:
+            quiet = None
+        time.sleep(0.004)
+
+
 class FakeSerial:
     """Drop-in for serial.Serial; the firmware instance is taken from the
     class attribute `firmware` at construction time."""
